@@ -724,6 +724,13 @@ def run(ctx, res):
                 hit("sampler:wrong", "%s on CNF(%r), support=%d: %s" % ("pycmsgen" if use_cmsgen else "pyunigen", cls, sup, bad),
                     {"kind": "sampler", "cnf": cls, "nvars": n, "support": sup, "cmsgen": use_cmsgen})
         res.count(("search-loop", repr(cls), sup))
+    # support = 0: the blocking clause of the empty solution is the empty clause `0`
+    for cls in ([[1, 2]], [[1], [-1, 2]], [[-1, -2], [1, 2, 3]]):
+        bad = prop_loop(m, cls, 3, 0)
+        if bad:
+            hit("loop:empty-solution-not-blocked", "compute_solutions on CNF(%r) with support=0: %s (update_file writes the "
+                "empty clause `0`, which the parser drops)" % (cls, bad), {"kind": "loop", "cnf": cls, "nvars": 3, "support": 0})
+        res.count(("search-loop0", repr(cls)))
     for _ in range(40 if q else 400):
         n = rng.randint(0, 10)
         bools = [rng.random() < 0.5 for _ in range(n)]
